@@ -344,6 +344,23 @@ func (e *s3env) synStream(id uint32, method, path string, fin bool, extra ...str
 	e.send(f)
 }
 
+// synBytes returns the wire bytes of a SYN_STREAM (POST, no FIN) written by the client Framer
+// without delivering them (the compressor state advances: deliver them in the order built).
+func (e *s3env) synBytes(id uint32, path string) []byte {
+	f := &SynStreamFrame{StreamId: StreamId(id), Headers: make(http.Header)}
+	f.Headers.Set(headerMethod, "POST")
+	f.Headers.Set(headerPath, path)
+	f.Headers.Set(headerVersion, "HTTP/1.1")
+	f.Headers.Set(headerHost, "example.org")
+	f.Headers.Set(headerScheme, "https")
+	if err := e.fr.WriteFrame(f); err != nil {
+		panic(fmt.Sprintf("s3env.synBytes: %v", err))
+	}
+	b := append([]byte(nil), e.wbuf.Bytes()...)
+	e.wbuf.Reset()
+	return b
+}
+
 // rawControl delivers a hand-built control frame (no validation by the client Framer).
 func (e *s3env) rawControl(typ ControlFrameType, flags uint8, words ...uint32) {
 	b := make([]byte, 8+4*len(words))
